@@ -218,7 +218,7 @@ class ExecWalker(pathwalk.Walker):
     def on_edge(self, fn, ci, taken, st):
         names = []
         cas = None
-        for j in fn.descendants(ci):
+        for j in fn.deep_descendants(ci):  # through named values: auto* const mark = Mark(); if (x == mark)
             m = fn.nodes[j]
             if 'cn' in m:
                 names.append(m['cn'])
